@@ -146,33 +146,39 @@ example : GenericWF 500000 [1, 2, 3, 4] (List.replicate 20 5) (List.replicate 20
 
 /-! ### fungible: Bitcoin source (the destination domain is the one named in the OP_RETURN text; ×10^10) -/
 
-theorem btc_to_evm (id : Ident) (sat : Nat) (addr : Bytes) (dst : Nat) (ha : addr.length = 20) (hd : dst < 256)
-    (hfit : sat * 10 ^ 10 < 2 ^ 256) :
-    relay ⟨.btc, .evm, id, Src.btcText addr dst, [], sat⟩ =
+theorem btc_to_evm (id : Ident) (sat : Nat) (text addr : Bytes) (dst : Nat)
+    (ht : Src.parseBtcText text = some (addr, dst)) (hfit : sat * 10 ^ 10 < 2 ^ 256) :
+    relay ⟨.btc, .evm, id, text, [], sat⟩ =
       .ok ⟨⟨id.src, dst, id.nonce, id.rid⟩, .evm (Canon.evmFungible (sat * 10 ^ 10) addr none), none⟩ := by
-  simp only [relay, source, dest, btc_src id.src id.nonce id.rid sat addr dst ha hd]
+  refine relay_ok (by rw [source_btc]; exact btc_src_text id.src id.nonce id.rid sat text addr dst ht) ?_
+  rw [dest_evm]
   simp [evmHandle, fungibleData, Canon.evmFungible, Src.optTail, pad32]
 
-theorem btc_to_sub (id : Ident) (sat : Nat) (addr : Bytes) (dst : Nat) (ha : addr.length = 20) (hd : dst < 256)
-    (hfit : sat * 10 ^ 10 < 2 ^ 256) :
-    relay ⟨.btc, .sub, id, Src.btcText addr dst, [], sat⟩ =
+theorem btc_to_sub (id : Ident) (sat : Nat) (text addr : Bytes) (dst : Nat)
+    (ht : Src.parseBtcText text = some (addr, dst)) (hfit : sat * 10 ^ 10 < 2 ^ 256) :
+    relay ⟨.btc, .sub, id, text, [], sat⟩ =
       .ok ⟨⟨id.src, dst, id.nonce, id.rid⟩, .evm (Canon.subFungible (sat * 10 ^ 10) addr), none⟩ := by
-  simp only [relay, source, dest, btc_src id.src id.nonce id.rid sat addr dst ha hd]
+  refine relay_ok (by rw [source_btc]; exact btc_src_text id.src id.nonce id.rid sat text addr dst ht) ?_
+  rw [dest_sub]
   simp [subHandle, fungibleData, Canon.subFungible, pad32]
 
 /-- Bitcoin → Bitcoin: ×10^10 then ÷10^10 returns the satoshi amount -/
-theorem btc_to_btc (id : Ident) (sat : Nat) (addr : Bytes) (dst : Nat) (ha : addr.length = 20) (hd : dst < 256)
-    (hfit : sat < 2 ^ 64) :
-    relay ⟨.btc, .btc, id, Src.btcText addr dst, [], sat⟩ =
+theorem btc_to_btc (id : Ident) (sat : Nat) (text addr : Bytes) (dst : Nat)
+    (ht : Src.parseBtcText text = some (addr, dst)) (hfit : sat < 2 ^ 64) :
+    relay ⟨.btc, .btc, id, text, [], sat⟩ =
       .ok ⟨⟨id.src, dst, id.nonce, id.rid⟩, .btc sat addr, none⟩ := by
-  exact relay_ok (by rw [source_btc]; exact btc_src id.src id.nonce id.rid sat addr dst ha hd)
+  exact relay_ok (by rw [source_btc]; exact btc_src_text id.src id.nonce id.rid sat text addr dst ht)
     (by rw [dest_btc]; exact btcHandle_ok _ _ _ _ sat (div_rescale sat) hfit)
 
-theorem btc_to_btc_refused (id : Ident) (sat : Nat) (addr : Bytes) (dst : Nat) (ha : addr.length = 20) (hd : dst < 256)
-    (hbig : ¬ sat < 2 ^ 64) :
-    relay ⟨.btc, .btc, id, Src.btcText addr dst, [], sat⟩ = .errDst := by
-  exact relay_errDst (by rw [source_btc]; exact btc_src id.src id.nonce id.rid sat addr dst ha hd)
+theorem btc_to_btc_refused (id : Ident) (sat : Nat) (text addr : Bytes) (dst : Nat)
+    (ht : Src.parseBtcText text = some (addr, dst)) (hbig : ¬ sat < 2 ^ 64) :
+    relay ⟨.btc, .btc, id, text, [], sat⟩ = .errDst := by
+  exact relay_errDst (by rw [source_btc]; exact btc_src_text id.src id.nonce id.rid sat text addr dst ht)
     (by rw [dest_btc]; exact btcHandle_big _ _ _ _ (by rw [div_rescale]; exact hbig))
+
+/-- non-vacuity: a mixed-case address without `0x` and a destination with a leading zero is a well-formed text -/
+example : Src.parseBtcText ([65, 98] ++ List.replicate 38 70 ++ [95, 48, 55]) = some (171 :: List.replicate 19 255, 7) := by
+  decide
 
 example : (List.replicate 20 (171 : UInt8)).length = 20 ∧ (2 : Nat) < 256 ∧ 2100000000000000 * 10 ^ 10 < 2 ^ 256 := by decide
 
@@ -189,6 +195,87 @@ theorem erc1155_decode_encode (v : Semi) (h : v.WF) : abiDecode1155 (abiEncode11
   abiDecode_encode v h
 
 example : (⟨[1, 2 ^ 256 - 1], [5, 0], List.replicate 20 3, [9, 9, 9]⟩ : Semi).WF := by decide
+
+/-! ### outcomes at the edges of the wire format (each is also a branch of `expected`) -/
+
+/-- an ERC20 tail of 1..32 bytes cannot hold a fee word plus a message byte; the handler does not treat it as an optional
+    message and the proposal is the one of the deposit without it (EVM destination) -/
+theorem erc20_short_tail_evm (id : Ident) (d0 : Fungible) (t resp : Bytes) (n : Nat) (h : ShortTailWF d0 t) (hr : RespWF resp) :
+    relay ⟨.erc20, .evm, id, Src.fungible d0 ++ t, resp, n⟩ =
+      .ok ⟨id, .evm (Canon.evmFungible (effAmount d0.amount resp) d0.recipient none), none⟩ := by
+  have hw := amountWord_length d0.amount resp h.1 hr
+  have he := amountWord_eq d0.amount resp hr
+  rw [he] at hw
+  refine relay_ok (by rw [source_erc20]; exact erc20_src_tail id d0 t resp h hr) ?_
+  rw [dest_evm, he]
+  simp [evmHandle, fungibleData_word _ _ hw, Canon.evmFungible, Src.optTail]
+
+theorem erc20_short_tail_sub (id : Ident) (d0 : Fungible) (t resp : Bytes) (n : Nat) (h : ShortTailWF d0 t) (hr : RespWF resp) :
+    relay ⟨.erc20, .sub, id, Src.fungible d0 ++ t, resp, n⟩ =
+      .ok ⟨id, .evm (Canon.subFungible (effAmount d0.amount resp) d0.recipient), none⟩ := by
+  have hw := amountWord_length d0.amount resp h.1 hr
+  have he := amountWord_eq d0.amount resp hr
+  rw [he] at hw
+  refine relay_ok (by rw [source_erc20]; exact erc20_src_tail id d0 t resp h hr) ?_
+  rw [dest_sub, he]
+  simp [subHandle, fungibleData_word _ _ hw, Canon.subFungible]
+
+theorem erc20_short_tail_btc (id : Ident) (d0 : Fungible) (t resp : Bytes) (n : Nat) (h : ShortTailWF d0 t) (hr : RespWF resp)
+    (hfit : effAmount d0.amount resp / 10 ^ 10 < 2 ^ 64) :
+    relay ⟨.erc20, .btc, id, Src.fungible d0 ++ t, resp, n⟩ =
+      .ok ⟨id, .btc (effAmount d0.amount resp / 10 ^ 10) d0.recipient, none⟩ := by
+  have he := amountWord_eq d0.amount resp hr
+  exact relay_ok (by rw [source_erc20]; exact erc20_src_tail id d0 t resp h hr)
+    (by rw [dest_btc]; exact btcHandle_ok _ _ _ _ _ (by rw [he, beToNat_pad32]) hfit)
+
+theorem erc20_short_tail_btc_refused (id : Ident) (d0 : Fungible) (t resp : Bytes) (n : Nat) (h : ShortTailWF d0 t)
+    (hr : RespWF resp) (hbig : ¬ effAmount d0.amount resp / 10 ^ 10 < 2 ^ 64) :
+    relay ⟨.erc20, .btc, id, Src.fungible d0 ++ t, resp, n⟩ = .errDst := by
+  have he := amountWord_eq d0.amount resp hr
+  exact relay_errDst (by rw [source_erc20]; exact erc20_src_tail id d0 t resp h hr)
+    (by rw [dest_btc]; exact btcHandle_big _ _ _ _ (by rw [he, beToNat_pad32]; exact hbig))
+
+example : ShortTailWF ⟨5, List.replicate 20 7, none⟩ (List.replicate 32 1) := by decide
+
+/-- Substrate and Bitcoin destinations take fungible transfers only: a message of any other type is refused (definitional) -/
+theorem nonfungible_refused (dk : DstKind) (hk : dk ≠ .evm) (m : Msg) (ht : m.typ ≠ .fungible) : dest dk m = .err := by
+  obtain ⟨id, typ, payload, gas⟩ := m
+  cases dk with
+  | evm => exact absurd rfl hk
+  | sub => cases typ <;> first | exact absurd rfl ht | rfl
+  | btc => cases typ <;> first | exact absurd rfl ht | rfl
+
+theorem erc721_non_evm_refused (id : Ident) (token : Nat) (r md resp : Bytes) (n : Nat) (h : NftWF token r md)
+    (dk : DstKind) (hk : dk ≠ .evm) :
+    relay ⟨.erc721, dk, id, Src.nft token r md, resp, n⟩ = .errDst :=
+  relay_errDst (by rw [source_erc721]; exact nft_src id token r md h) (nonfungible_refused dk hk _ (by simp))
+
+theorem generic_non_evm_refused (id : Ident) (fee : Nat) (fs ca dep ex resp : Bytes) (n : Nat)
+    (h : GenericWF fee fs ca dep ex) (dk : DstKind) (hk : dk ≠ .evm) :
+    relay ⟨.generic, dk, id, Src.generic fee fs ca dep ex, resp, n⟩ = .errDst :=
+  relay_errDst (by rw [source_generic]; exact generic_src id fee fs ca dep ex h) (nonfungible_refused dk hk _ (by simp))
+
+/-- ERC1155, decode-based (holds by unfolding the model: the source handler decodes, the destination handler re-encodes):
+    whatever ABI layout the calldata uses, if geth's decoder yields `v` the proposal carries the canonical encoding of `v`
+    when the recipient is an EVM address … -/
+theorem erc1155_decoded (id : Ident) (cd resp : Bytes) (n : Nat) (v : Semi) (hdec : abiDecode1155 cd = some v)
+    (hr : v.recipient.length = 20) :
+    relay ⟨.erc1155, .evm, id, cd, resp, n⟩ = .ok ⟨id, .evm (abiEncode1155 v), none⟩ := by
+  refine relay_ok (m := ⟨id, .semiFungible, [.ints v.ids, .ints v.amounts, .bytes v.recipient, .bytes v.data], none⟩)
+    (by rw [source_erc1155]; simp [erc1155Deposit, hdec]) ?_
+  rw [dest_evm]; simp [evmHandle, hr]
+
+/-- … and is refused when the recipient is not 20 bytes or the destination is not an EVM chain -/
+theorem erc1155_decoded_refused (id : Ident) (cd resp : Bytes) (n : Nat) (v : Semi) (dk : DstKind)
+    (hdec : abiDecode1155 cd = some v) (hbad : ¬ (dk = .evm ∧ v.recipient.length = 20)) :
+    relay ⟨.erc1155, dk, id, cd, resp, n⟩ = .errDst := by
+  refine relay_errDst (m := ⟨id, .semiFungible, [.ints v.ids, .ints v.amounts, .bytes v.recipient, .bytes v.data], none⟩)
+    (by rw [source_erc1155]; simp [erc1155Deposit, hdec]) ?_
+  by_cases hk : dk = .evm
+  · subst hk
+    have hr : v.recipient.length ≠ 20 := fun e => hbad ⟨rfl, e⟩
+    rw [dest_evm]; simp [evmHandle, hr]
+  · exact nonfungible_refused dk hk _ (by simp)
 
 /-! ### the predicate the driver evaluates on the implementation's output holds of the model, for every request -/
 
@@ -223,7 +310,33 @@ theorem expected_sound (i : Input) (e : Out) (h : expected i = some e) : relay i
             exact erc20_evm_to_btc_refused id d resp num hwf hr ho hf
         · rw [if_neg ho] at h; simp only [Option.some.injEq] at h; rw [← h]
           exact erc20_optmsg_refused id d resp num hwf hr ho .btc (by decide)
-    · rw [if_neg hc] at h; cases h
+    · rw [if_neg hc] at h
+      clear hc hd d
+      generalize hd0 : (⟨beToNat (List.take 32 cd), (List.drop 64 cd).take (beToNat ((List.drop 32 cd).take 32)), none⟩ : Fungible) = d0 at h
+      generalize ht : List.drop (64 + beToNat ((List.drop 32 cd).take 32)) cd = t at h
+      by_cases hc : Src.fungible d0 ++ t = cd ∧ ShortTailWF d0 t ∧ RespWF resp
+      · rw [if_pos hc] at h
+        obtain ⟨hcd, hwf, hr⟩ := hc
+        subst hd0
+        cases dk with
+        | evm =>
+          simp only [Option.some.injEq] at h; rw [← h]
+          have := erc20_short_tail_evm id _ t resp num hwf hr
+          rw [hcd] at this; exact this
+        | sub =>
+          simp only [Option.some.injEq] at h; rw [← h]
+          have := erc20_short_tail_sub id _ t resp num hwf hr
+          rw [hcd] at this; exact this
+        | btc =>
+          simp only [] at h
+          by_cases hf : effAmount (beToNat (List.take 32 cd)) resp / 10 ^ 10 < 2 ^ 64
+          · rw [if_pos hf] at h; simp only [Option.some.injEq] at h; rw [← h]
+            have := erc20_short_tail_btc id _ t resp num hwf hr hf
+            rw [hcd] at this; exact this
+          · rw [if_neg hf] at h; simp only [Option.some.injEq] at h; rw [← h]
+            have := erc20_short_tail_btc_refused id _ t resp num hwf hr hf
+            rw [hcd] at this; exact this
+      · rw [if_neg hc] at h; cases h
   | sub =>
     simp only [] at h
     generalize hd : parseFungible cd = d at h
@@ -257,23 +370,33 @@ theorem expected_sound (i : Input) (e : Out) (h : expected i = some e) : relay i
     generalize hm : (List.drop (96 + beToNat ((List.drop 32 cd).take 32)) cd).take
       (beToNat ((List.drop (64 + beToNat ((List.drop 32 cd).take 32)) cd).take 32)) = md at h
     generalize ht : beToNat (List.take 32 cd) = t at h
-    by_cases hc : Src.nft t r md = cd ∧ NftWF t r md ∧ dk = .evm
+    by_cases hc : Src.nft t r md = cd ∧ NftWF t r md
     · rw [if_pos hc] at h
-      obtain ⟨hcd, hwf, hk⟩ := hc
-      subst hk
-      simp only [Option.some.injEq] at h; rw [← h, ← hcd]
-      exact erc721_evm_to_evm id t r md resp num hwf
+      obtain ⟨hcd, hwf⟩ := hc
+      by_cases hk : dk = .evm
+      · rw [if_pos hk] at h; subst hk
+        simp only [Option.some.injEq] at h; rw [← h, ← hcd]
+        exact erc721_evm_to_evm id t r md resp num hwf
+      · rw [if_neg hk] at h
+        simp only [Option.some.injEq] at h; rw [← h, ← hcd]
+        exact erc721_non_evm_refused id t r md resp num hwf dk hk
     · rw [if_neg hc] at h; cases h
   | generic =>
     simp only [] at h
     split at h
     · next hc =>
-      obtain ⟨hcd, hwf, hk⟩ := hc
-      subst hk
-      simp only [Option.some.injEq] at h; rw [← h]
-      have := generic_evm_to_evm id _ _ _ _ _ resp num hwf
-      rw [hcd] at this
-      exact this
+      obtain ⟨hcd, hwf⟩ := hc
+      by_cases hk : dk = .evm
+      · rw [if_pos hk] at h; subst hk
+        simp only [Option.some.injEq] at h; rw [← h]
+        have := generic_evm_to_evm id _ _ _ _ _ resp num hwf
+        rw [hcd] at this
+        exact this
+      · rw [if_neg hk] at h
+        simp only [Option.some.injEq] at h; rw [← h]
+        have := generic_non_evm_refused id _ _ _ _ _ resp num hwf dk hk
+        rw [hcd] at this
+        exact this
     · cases h
   | erc1155 =>
     simp only [] at h
@@ -282,49 +405,43 @@ theorem expected_sound (i : Input) (e : Out) (h : expected i = some e) : relay i
     | some v =>
       rw [hdec] at h
       simp only [] at h
-      by_cases hc : abiEncode1155 v = cd ∧ v.WF ∧ dk = .evm
+      by_cases hc : dk = .evm ∧ v.recipient.length = 20
       · rw [if_pos hc] at h
-        obtain ⟨hcd, hwf, hk⟩ := hc
+        obtain ⟨hk, hr⟩ := hc
         subst hk
-        simp only [Option.some.injEq] at h; rw [← h, ← hcd]
-        exact erc1155_evm_to_evm id v resp num hwf
-      · rw [if_neg hc] at h; cases h
+        simp only [Option.some.injEq] at h; rw [← h]
+        exact erc1155_decoded id cd resp num v hdec hr
+      · rw [if_neg hc] at h
+        simp only [Option.some.injEq] at h; rw [← h]
+        exact erc1155_decoded_refused id cd resp num v dk hdec hc
   | btc =>
     simp only [] at h
-    split at h
-    · next p0 p1 hsp =>
-      generalize fromHexGo p0 = addr at h
-      generalize decValue p1 = dst at h
-      by_cases hc : Src.btcText addr dst = cd ∧ addr.length = 20 ∧ dst < 256
-      · rw [if_pos hc] at h
-        obtain ⟨hcd, ha, hdl⟩ := hc
-        subst hcd
-        cases dk with
-        | evm =>
-          simp only [] at h
-          by_cases hf : num * 10 ^ 10 < 2 ^ 256
-          · rw [if_pos hf] at h; simp only [Option.some.injEq] at h; rw [← h]
-            have := btc_to_evm id num addr dst ha hdl hf
-            simp only [relay, source, dest] at this ⊢
-            exact this
-          · rw [if_neg hf] at h; cases h
-        | sub =>
-          simp only [] at h
-          by_cases hf : num * 10 ^ 10 < 2 ^ 256
-          · rw [if_pos hf] at h; simp only [Option.some.injEq] at h; rw [← h]
-            have := btc_to_sub id num addr dst ha hdl hf
-            simp only [relay, source, dest] at this ⊢
-            exact this
-          · rw [if_neg hf] at h; cases h
-        | btc =>
-          simp only [] at h
-          by_cases hf : num < 2 ^ 64
-          · rw [if_pos hf] at h; simp only [Option.some.injEq] at h; rw [← h]
-            exact btc_to_btc id num addr dst ha hdl hf
-          · rw [if_neg hf] at h; simp only [Option.some.injEq] at h; rw [← h]
-            exact btc_to_btc_refused id num addr dst ha hdl hf
-      · rw [if_neg hc] at h; cases h
-    · cases h
+    cases ht : Src.parseBtcText cd with
+    | none => rw [ht] at h; cases h
+    | some ad =>
+      obtain ⟨addr, dst⟩ := ad
+      rw [ht] at h
+      simp only [] at h
+      cases dk with
+      | evm =>
+        simp only [] at h
+        by_cases hf : num * 10 ^ 10 < 2 ^ 256
+        · rw [if_pos hf] at h; simp only [Option.some.injEq] at h; rw [← h]
+          exact btc_to_evm id num cd addr dst ht hf
+        · rw [if_neg hf] at h; cases h
+      | sub =>
+        simp only [] at h
+        by_cases hf : num * 10 ^ 10 < 2 ^ 256
+        · rw [if_pos hf] at h; simp only [Option.some.injEq] at h; rw [← h]
+          exact btc_to_sub id num cd addr dst ht hf
+        · rw [if_neg hf] at h; cases h
+      | btc =>
+        simp only [] at h
+        by_cases hf : num < 2 ^ 64
+        · rw [if_pos hf] at h; simp only [Option.some.injEq] at h; rw [← h]
+          exact btc_to_btc id num cd addr dst ht hf
+        · rw [if_neg hf] at h; simp only [Option.some.injEq] at h; rw [← h]
+          exact btc_to_btc_refused id num cd addr dst ht hf
 
 /-! ### destination handlers alone: every length word / length byte carries the full length of its field -/
 
